@@ -145,6 +145,7 @@ theorem sessionIntercept_trace (w : World) (sraw : Option Sess) (whole : Option 
     · cases h; intro e he; simp at he; subst he; exact ⟨rfl, rfl⟩
   · cases h; intro e he; simp at he
   · cases h; intro e he; simp at he
+  · cases h; intro e he; simp at he
   · cases h
 
 theorem queryPath_trace_single (P : Parser) (w : World) (rq : Req) (role : Option (String × Role)) (whole : Option Stmt)
